@@ -379,7 +379,6 @@ func sameStrings(a, b []string) bool {
 	return true
 }
 
-var orderFinding = []string{"", "C17-lds-order", "C17-rds-order", "C17-eds-order"}
 
 func genDirect(t *testing.T, c *vlib.Collector, id *int, r *vlib.Rand, n int) {
 	modes := []string{"clean", "k6", "httpproxy", "pickbest", "sharedvip", "clean"}
@@ -425,7 +424,6 @@ func genDirect(t *testing.T, c *vlib.Collector, id *int, r *vlib.Rand, n int) {
 					tg = append(tg, "direct-differs")
 					dumpDiff(cid, a, b)
 				}
-				tagFinding(c, cid, mode)
 				c.Add(vlib.Case{ID: cid, Tags: tg, Term: vlib.App("Direct", vlib.NI(cid), vlib.NI(0), digestsTerm(a.content), digestsTerm(b.content)), Sample: sample})
 				// response order per type, several regenerations against the first
 				for typ := 0; typ < 4; typ++ {
@@ -438,11 +436,6 @@ func genDirect(t *testing.T, c *vlib.Collector, id *int, r *vlib.Rand, n int) {
 					otg := []string{"order", "order-" + typNames[typ]}
 					if !sameStrings(a.order[typ], second) {
 						otg = append(otg, "order-"+typNames[typ]+"-varies")
-					}
-					if orderFinding[typ] != "" {
-						c.FindingOf[oid] = orderFinding[typ]
-					} else {
-						tagFinding(c, oid, mode)
 					}
 					c.Add(vlib.Case{ID: oid, Tags: otg, Trivial: len(a.order[typ]) < 2,
 						Term: vlib.App("Order", vlib.NI(oid), vlib.NI(typ), namesTerm(a.order[typ]), namesTerm(second)),
@@ -482,8 +475,7 @@ func genDirect(t *testing.T, c *vlib.Collector, id *int, r *vlib.Rand, n int) {
 						}
 						tg = append(tg, "direct-differs")
 					}
-					tagFinding(c, cid, mode)
-					c.Add(vlib.Case{ID: cid, Tags: tg, Term: vlib.App("Direct", vlib.NI(cid), vlib.NI(1), digestsTerm(ref[pi].content), digestsTerm(b.content)), Sample: sample})
+						c.Add(vlib.Case{ID: cid, Tags: tg, Term: vlib.App("Direct", vlib.NI(cid), vlib.NI(1), digestsTerm(ref[pi].content), digestsTerm(b.content)), Sample: sample})
 				}
 			}
 		})
@@ -493,18 +485,6 @@ func genDirect(t *testing.T, c *vlib.Collector, id *int, r *vlib.Rand, n int) {
 	}
 }
 
-func tagFinding(c *vlib.Collector, id int, mode string) {
-	switch mode {
-	case "k6":
-		c.FindingOf[id] = findSvcTie
-	case "pickbest":
-		c.FindingOf[id] = findPickBest
-	case "sharedvip":
-		c.FindingOf[id] = findSharedVIP
-	case "httpproxy":
-		c.FindingOf[id] = findHTTPProxy
-	}
-}
 
 // ---------------------------------------------------------------- layer (a): locality grouping of the real EDS builder
 
